@@ -615,6 +615,12 @@ func c20ObjKinds() []c20ObjKind {
 		{"byte-slice", func() interface{} { return []byte("ab") }, true},
 		{"complex", func() interface{} { return complex(1, 2) }, true},
 		{"uint8", func() interface{} { return uint8(7) }, true},
+		// host values that are nil inside: a typed nil pointer, map, slice, function (an Object holding that value, not Null)
+		{"nil-pointer", func() interface{} { return (*objPayload)(nil) }, true},
+		{"nil-map", func() interface{} { return map[string]int(nil) }, true},
+		{"nil-slice", func() interface{} { return []string(nil) }, true},
+		{"nil-func", func() interface{} { return (func())(nil) }, true},
+		{"struct-with-nil-pointer", func() interface{} { return struct{ P *int }{nil} }, true},
 	}
 }
 
@@ -653,6 +659,10 @@ func checkC20Obj(c c20ObjCase) (res *evid.Fail) {
 		a := c20ObjBuild(c.ViaA, pa)
 		if a.Type() != variants.Object {
 			res = evid.F("object-wrong-type:"+ka.name, "%s(%s payload) reports type %s", c.ViaA, ka.name, vtName(a.Type()))
+			return
+		}
+		if got := a.AsObject(); got == nil || reflect.TypeOf(got) != reflect.TypeOf(pa) {
+			res = evid.F("object-payload-changed:"+ka.name, "%s(%s payload): AsObject returns a %T, the payload is a %T", c.ViaA, ka.name, got, pa)
 			return
 		}
 		if ka.reflexive && !reflect.DeepEqual(a.AsObject(), pa) {
